@@ -98,8 +98,8 @@ CHECKS = {
     'C07': {
         'level': 'exploration',
         'legs': [
-            {'engine': 'faultcall', 'config': 'asan', 'variant': 'base', 'runs': [6000, 400000]},
-            {'engine': 'faultcall', 'config': 'asan32', 'variant': 'base', 'runs': [3000, 200000]},
+            {'engine': 'faultcall', 'config': 'asan', 'variant': 'base', 'runs': [10000, 600000]},
+            {'engine': 'faultcall', 'config': 'asan32', 'variant': 'base', 'runs': [5000, 300000]},
             {'engine': 'streamsim', 'config': 'asan', 'runs': [100000, 3000000]},
             {'engine': 'streamsim', 'config': 'asan32', 'runs': [50000, 1500000]},
             {'engine': 'mtsim', 'config': 'asan', 'variant': 'exit', 'runs': [20000, 1000000]},
@@ -126,8 +126,8 @@ CHECKS = {
     'C09': {
         'level': 'fault_enumeration',
         'legs': [
-            {'engine': 'faultcall', 'config': 'asan', 'variant': 'alloc', 'runs': [2500, 150000]},
-            {'engine': 'faultcall', 'config': 'asan', 'variant': 'badarg', 'runs': [2500, 100000]},
+            {'engine': 'faultcall', 'config': 'asan', 'variant': 'alloc', 'runs': [5000, 300000]},
+            {'engine': 'faultcall', 'config': 'asan', 'variant': 'badarg', 'runs': [5000, 200000]},
             {'engine': 'faultcall', 'config': 'asan32', 'variant': 'alloc', 'runs': [0, 50000]},
             {'engine': 'faultcall', 'config': 'asan32', 'variant': 'badarg', 'runs': [0, 30000]},
             {'engine': 'protosim', 'config': 'asan', 'variant': 'bakealloc', 'runs': [600, 60000]},
